@@ -16,5 +16,9 @@ for f in sorted(glob.glob('/verif/seeded/*/meta.json')):
     others = ''
     if sid in mx:
         others = ', '.join(c for c, rc in sorted(mx[sid].items()) if rc == 1 and c != m['property'])
-    hist = m.get('history', '')
-    print(f"| {sid} | {notes} | {'caught' if m['check_result']['caught'] else 'MISSED'}{(' (' + hist + ')') if hist else ''} | {mech} | {others} |")
+    hist = (m.get('history') or '').replace('|', '/')
+    cross = sorted(c for c, rc in (m.get('other_checks_exit_codes') or {}).items() if rc == 1 and c != m['property'])
+    if cross:
+        others = ', '.join(sorted(set(filter(None, others.split(', '))) | set(cross)))
+    verdict = 'caught' if m['check_result']['caught'] else ('not judged here - caught by ' + ', '.join(cross) if cross else 'MISSED')
+    print(f"| {sid} | {notes} | {verdict}{(' (' + hist + ')') if hist else ''} | {mech} | {others} |")
